@@ -68,6 +68,40 @@ def opFn (j : Json) : Except String Json := do
     let a0 ← argStr j 0
     let a1 ← argBool j 1
     return Json.mkObj [("r", jstr (Pinned.Funcs.sort_lines a0 a1))]
+  if name == "service_client_name" then
+    let a0 ← argBool j 0
+    let a1 ← argStr j 1
+    return Json.mkObj [("r", jstr (Pinned.Funcs.service_client_name a0 a1))]
+  if name == "service_async_client_name" then
+    let a0 ← argBool j 0
+    let a1 ← argStr j 1
+    return Json.mkObj [("r", jstr (Pinned.Funcs.service_async_client_name a0 a1))]
+  if name == "service_transport_name" then
+    let a0 ← argStr j 0
+    return Json.mkObj [("r", jstr (Pinned.Funcs.service_transport_name a0))]
+  if name == "service_grpc_transport_name" then
+    let a0 ← argStr j 0
+    return Json.mkObj [("r", jstr (Pinned.Funcs.service_grpc_transport_name a0))]
+  if name == "service_grpc_asyncio_transport_name" then
+    let a0 ← argStr j 0
+    return Json.mkObj [("r", jstr (Pinned.Funcs.service_grpc_asyncio_transport_name a0))]
+  if name == "service_rest_transport_name" then
+    let a0 ← argStr j 0
+    return Json.mkObj [("r", jstr (Pinned.Funcs.service_rest_transport_name a0))]
+  if name == "service_module_name" then
+    let a0 ← argStr j 0
+    return Json.mkObj [("r", jstr (Pinned.Funcs.service_module_name a0))]
+  if name == "naming_module_name" then
+    let a0 ← argStr j 0
+    return Json.mkObj [("r", jstr (Pinned.Funcs.naming_module_name a0))]
+  if name == "new_naming_versioned_module_name" then
+    let a0 ← argStr j 0
+    let a1 ← argStr j 1
+    return Json.mkObj [("r", jstr (Pinned.Funcs.new_naming_versioned_module_name a0 a1))]
+  if name == "old_naming_versioned_module_name" then
+    let a0 ← argStr j 0
+    let a1 ← argStr j 1
+    return Json.mkObj [("r", jstr (Pinned.Funcs.old_naming_versioned_module_name a0 a1))]
   if name == "metadata_doc" then
     let a0 ← argStr j 0
     let a1 ← argStr j 1
